@@ -3,6 +3,7 @@
 //! Everything observes rrtk only through its public API.
 #![allow(dead_code)]
 pub mod json;
+pub mod mp;
 pub mod report;
 pub mod rng;
 pub mod srcs;
